@@ -35,12 +35,17 @@ def _init():
     sys.path.insert(0, core.REPO)
     import logging
     logging.disable(logging.CRITICAL)
+    saved = list(sys.path)
     from miasmx.arch.ia32_arch import x86mnemo
+    # ply/yacc.py read_table() sets sys.path = [outputdir] and does not restore it when the table file does not exist
+    # yet (fresh TMPDIR): importing miasmX would leave this process without a usable sys.path
+    if sys.path != saved and len(sys.path) == 1:
+        sys.path[:] = saved
     _mn = x86mnemo
     signal.signal(signal.SIGALRM, _alarm)
 
 
-def dis_one(b, att=False):
+def dis_one(b, att=False, want_row=False):
     """-> dict: st in absent|instr|exc|timeout (+ projection fields).  Rendering failures are st='exc' with stage."""
     global _mn
     if _mn is None:
@@ -58,6 +63,8 @@ def dis_one(b, att=False):
             text = str(ins)
             r['text'] = text
             r['len'] = int(ins.l)
+            if want_row:                     # evidence only (coverage of miasmX's table), never part of a verdict
+                r['row'] = '%s %s' % (ins.m.name, ' '.join('%02X' % x for x in ins.m.opc))
             if att:
                 stage = 'att'
                 r['att'] = ins.__str__(asm_format='att_syntax binutils')
@@ -80,18 +87,18 @@ def dis_one(b, att=False):
 
 
 def _chunk(args):
-    bs, att = args
-    return [dis_one(b, att) for b in bs]
+    bs, att, want_row = args
+    return [dis_one(b, att, want_row) for b in bs]
 
 
-def observe(byte_strings, att=False, procs=None):
+def observe(byte_strings, att=False, procs=None, want_row=False):
     """decode every byte string with miasmX (parallel); returns one result dict per input, in order"""
     procs = procs or min(core.NCPU, 16)
     n = len(byte_strings)
     if n < 2000 or procs == 1:
-        return _chunk((byte_strings, att))
+        return _chunk((byte_strings, att, want_row))
     step = max(500, n // (procs * 8))
-    chunks = [(byte_strings[i:i + step], att) for i in range(0, n, step)]
+    chunks = [(byte_strings[i:i + step], att, want_row) for i in range(0, n, step)]
     ctx = multiprocessing.get_context('fork')
     with ctx.Pool(procs, initializer=_init) as pool:
         out = []
